@@ -1433,8 +1433,8 @@ def create_coalesent(id_, tree_id, taxa, arg):
 
 def create_substitution_model_priors(substmodel_id, model):
     joint_list = []
-    if model in ("HKY", "SYM", "GTR"):
-        if model != "SYM":
+    if model in ("K80", "HKY", "SYM", "GTR"):
+        if model not in ("K80", "SYM"):
             joint_list.append(
                 Distribution.json_factory(
                     f"{substmodel_id}.frequencies.prior",
